@@ -33,6 +33,9 @@ PATTERNS = {
     "^[A-Z][a-z]*$": (True, "(RSeq %s (RStar %s))" % (_cls("A", "Z"), _cls("a", "z")), True),
     "^[0-9]+%$": (True, "(RSeq (RPlus %s) (RChar 37))" % _cls("0", "9"), True),
     "^.*$": (True, "(RStar RAny)", True),
+    # blanks at either end of the expression are part of it
+    "^-- ": (True, _lit("-- "), False),
+    " $": (False, _lit(" "), True),
 }
 # for each pattern: strings that match / do not match, by length
 PAT_SAMPLES = {
@@ -46,6 +49,8 @@ PAT_SAMPLES = {
     "^[A-Z][a-z]*$": (["A", "Ab", "Abc", "Abcd", "Abcde", "Abcdef", "Abcdefg"], ["a", "aB", "ABc", "Abc1", "Ab de", "abcdef", "AbcdefG"]),
     "^[0-9]+%$": (["5%", "50%", "100%", "1234%", "12345%", "123456%"], ["%", "5", "5%%", "a5%", "50 %", "%%%%%%", "1234567"]),
     "^.*$": (["", "a", "ab", "a c", "ab\tc", "abcde", "abcdef", "abcdefg"], ["\n", "a\n", "a\nb", "\nabc", "ab\ncd", "abcde\n", "abc\ndef"]),
+    "^-- ": (["-- ", "-- x", "-- ab", "-- abc", "-- abcd", "-- -- --"], ["--", "--x", "-- "[:2] + "x", " -- ", "- - x", "x-- y", "--\tabc"]),
+    " $": ([" ", "a ", "ab ", "abc ", "a b  ", "abcdef "], ["", "a", " a", "ab", "a b", " abcd", "abcdef\t"]),
 }
 
 FMT = {"date-time": "FDateTime", "date": "FDate", "time": "FTime", "ipv4": "FIP", "ipv6": "FIP"}
